@@ -54,6 +54,10 @@ fn normalize(p: &Path) -> PathBuf {
 
 /// The files a source consists of, relative to the corpus root, sorted.
 pub fn closure(source_rel: &str) -> Vec<String> {
+    if source_rel.starts_with('/') || source_rel.starts_with("gen:") {
+        // not part of the corpus tree that gets copied and corrupted
+        return Vec::new();
+    }
     let root = Path::new(TESTDATA);
     let src = root.join(source_rel);
     let mut files = Vec::new();
